@@ -5,7 +5,8 @@
    Transactions are identified by harness serial numbers (byte identity: C15/C20). *)
 From Coq Require Import ZArith List Bool.
 From V Require Import Model.ZMap Model.Quorum Model.HgImpl Model.NodeModel Proofs.NodeProofs
-  Proofs.AdmissionProofs Proofs.BlockInv Proofs.OrderProofs Proofs.TidyC05.
+  Proofs.AdmissionProofs Proofs.BlockInv Proofs.OrderProofs Proofs.TidyC05
+  Model.CoreModel Proofs.CoreProofs.
 Import ListNotations.
 Open Scope Z_scope.
 
@@ -119,10 +120,121 @@ Theorem C05_commit_once : forall (blocks : list (list Z)) (events : list (list Z
 Proof. exact commit_once_lists. Qed.
 Print Assumptions C05_commit_once.
 
-(* NOT PROVED (asserted nowhere): that the pool model and the hashgraph model are driven by the
-   same node -- [from_pools] is a hypothesis relating the two models' inputs, discharged on every
-   explored history by the check's oracle (each event's payload is compared with what the
-   creating core captured), not by a proof about a combined node model. *)
+(** The combined model (Model/CoreModel.v): the core's pools, head and seq over the hashgraph
+    model; operations addTransactions / addInternalTransaction / addSelfEvent / the insertion loop
+    of sync / processSigPool.  [node self genesis oracle ops] is the core after [ops] from its
+    initial state.  [run_ok all .. ops]: every event handed to the hashgraph is in [all] (the list
+    in which identifiers determine events) with an identifier >= 0, and a synced event that claims
+    this node as creator does not verify unless the node made it ([not_forged]; unforgeability).
+    Freshness of the identifier of a new self-event is NOT a premise: it follows. *)
+
+(* the hashgraph of the node is the [hrun] state of the calls the core made, which satisfy the
+   premises of the hashgraph theorems: all of C02 / C04 / C05 above / C07 / C09 / C10 / C18 apply *)
+Theorem C05_core_hashgraph_is_hrun : forall all self_ genesis oracle_ ops,
+  run_ok all (core_init self_ genesis oracle_) ops ->
+  c_hg (node self_ genesis oracle_ ops) = hrun (init_hg self_ genesis oracle_) (node_calls self_ genesis oracle_ ops) /\
+  Forall (hop_ok all) (node_calls self_ genesis oracle_ ops).
+Proof. exact node_hg. Qed.
+Print Assumptions C05_core_hashgraph_is_hrun.
+
+(* (1) the node's own stored events are exactly the self-events made by addSelfEvent: the k-th one
+   is stored with index k and the payload captured from the pools, every stored event of the node
+   is one of them, seq and head are those of the last one *)
+Theorem C05_own_events_are_created : forall all self_ genesis oracle_ ops,
+  ids_determine all -> run_ok all (core_init self_ genesis oracle_) ops ->
+  let c := node self_ genesis oracle_ ops in
+  (forall k id txs itxs, nth_error (c_created c) k = Some (id, (txs, itxs)) ->
+     exists ex, get_event (c_hg c) id = Some ex /\ e_creator (ev_e ex) = self_ /\
+                e_index (ev_e ex) = Z.of_nat k /\ e_txs (ev_e ex) = txs /\ e_itxs (ev_e ex) = itxs) /\
+  (forall x ex, get_event (c_hg c) x = Some ex -> e_creator (ev_e ex) = self_ ->
+     exists txs itxs, nth_error (c_created c) (Z.to_nat (e_index (ev_e ex))) = Some (x, (txs, itxs))) /\
+  c_seq c = Z.of_nat (length (c_created c)) - 1 /\ c_head c = last (map fst (c_created c)) (-1).
+Proof. exact own_events_are_created. Qed.
+Print Assumptions C05_own_events_are_created.
+
+(* (2) conservation, the statement the Go oracle `conservation` evaluates: at every moment what
+   addTransactions accepted is, in order, the payloads of the node's own stored events followed by
+   the pool ... *)
+Theorem C05_core_conservation : forall all self_ genesis oracle_ ops,
+  ids_determine all -> run_ok all (core_init self_ genesis oracle_) ops ->
+  let c := node self_ genesis oracle_ ops in
+  c_submitted c = flat_map (etxs (c_hg c)) (created_ids c) ++ c_txs c /\
+  NoDup (created_ids c) /\
+  (forall x, In x (created_ids c) <-> exists ex, get_event (c_hg c) x = Some ex /\ e_creator (ev_e ex) = self_).
+Proof. exact node_conservation. Qed.
+Print Assumptions C05_core_conservation.
+
+(* ... so that an accepted transaction is either still in the pool and in no own stored event, or
+   in exactly one own stored event and not in the pool *)
+Theorem C05_core_exactly_one : forall all self_ genesis oracle_ ops t,
+  ids_determine all -> run_ok all (core_init self_ genesis oracle_) ops ->
+  let c := node self_ genesis oracle_ ops in
+  NoDup (c_submitted c) -> In t (c_submitted c) ->
+  (In t (c_txs c) /\ forall x, In x (created_ids c) -> ~ In t (etxs (c_hg c) x)) \/
+  (~ In t (c_txs c) /\ exists x, In x (created_ids c) /\ In t (etxs (c_hg c) x) /\
+                        forall y, In y (created_ids c) -> In t (etxs (c_hg c) y) -> y = x).
+Proof. exact node_exactly_one. Qed.
+Print Assumptions C05_core_exactly_one.
+
+(* (3) commit side of one node: the own events it committed are self-events of addSelfEvent, none
+   twice; a transaction committed through an own event was accepted by addTransactions; with
+   distinct accepted transactions none is committed twice, and none is still in the pool *)
+Theorem C05_core_commit_side : forall all self_ genesis oracle_ ops,
+  ids_determine all -> run_ok all (core_init self_ genesis oracle_) ops ->
+  let c := node self_ genesis oracle_ ops in
+  NoDup (own_committed_events c) /\ incl (own_committed_events c) (created_ids c) /\
+  incl (own_committed_txs c) (c_submitted c) /\
+  (NoDup (c_submitted c) ->
+     NoDup (own_committed_txs c) /\ forall t, In t (own_committed_txs c) -> ~ In t (c_txs c)).
+Proof. exact node_commit_side. Qed.
+Print Assumptions C05_core_commit_side.
+
+(* The hypothesis [from_pools] of C05_submitted_committed_at_most_once, now a theorem: for nodes
+   that are cores ([nd G Or Ops k] = node k (G k) (Or k) (Ops k)), every list of events that are
+   stored at their creators' nodes is made of the creators' pool payloads, slot = index *)
+Theorem C05_nodes_from_pools : forall all creators G Or Ops,
+  ids_determine all ->
+  (forall k, In k creators -> run_ok all (core_init k (G k) (Or k)) (Ops k)) ->
+  forall evs,
+  (forall e, In e evs -> In e all /\ In (e_creator e) creators /\
+                         get_event (c_hg (nd G Or Ops (e_creator e))) (e_id e) <> None) ->
+  from_pools evs creators (fun k => pools_of (nd G Or Ops k)) (fun e => Z.to_nat (e_index e)).
+Proof. exact nodes_from_pools. Qed.
+Print Assumptions C05_nodes_from_pools.
+
+(* C05_submitted_committed_at_most_once with [from_pools] discharged.  Any observer (any node,
+   any operation sequence [hops]) whose admitted events were made by their creators' cores -- i.e.
+   are stored at the creator's node -- never commits a transaction twice, when the transactions
+   accepted by the nodes are pairwise distinct within and across nodes. *)
+Theorem C05_submitted_committed_at_most_once_cores : forall all creators G Or Ops,
+  ids_determine all ->
+  (forall k, In k creators -> run_ok all (core_init k (G k) (Or k)) (Ops k)) ->
+  forall self_ genesis oracle_ hops,
+  Forall (hop_ok all) hops ->
+  let R := hrun (init_hg self_ genesis oracle_) hops in
+  NoDup creators ->
+  (forall x ex, get_event R x = Some ex ->
+     In (e_creator (ev_e ex)) creators /\ get_event (c_hg (nd G Or Ops (e_creator (ev_e ex)))) x <> None) ->
+  NoDup (flat_map (fun k => c_submitted (nd G Or Ops k)) creators) ->
+  NoDup (committed_txs R).
+Proof. exact network_committed_at_most_once. Qed.
+Print Assumptions C05_submitted_committed_at_most_once_cores.
+
+(* the NodeModel pools read off a core obey NodeModel's conservation law (link of the two models) *)
+Theorem C05_core_pools_conserved : forall all self_ genesis oracle_ ops,
+  ids_determine all -> run_ok all (core_init self_ genesis oracle_) ops ->
+  p_submitted (pools_of (node self_ genesis oracle_ ops)) =
+    flat_map fst (p_created (pools_of (node self_ genesis oracle_ ops))) ++ p_txs (pools_of (node self_ genesis oracle_ ops)) /\
+  p_isubmitted (pools_of (node self_ genesis oracle_ ops)) =
+    flat_map snd (p_created (pools_of (node self_ genesis oracle_ ops))) ++ p_itxs (pools_of (node self_ genesis oracle_ ops)).
+Proof. exact (fun all s g o ops ID H => pools_of_conserved all _ (node_cinv all s g o ops ID H)). Qed.
+Print Assumptions C05_core_pools_conserved.
+
+(* NOT PROVED (asserted nowhere): the premise of the last theorem that every event an observer
+   admits is stored at its creator's node is a statement about the network (an admitted event
+   verifies, so by unforgeability its creator signed it, and a core signs only the self-events it
+   inserts first); it is not derived from a model of the network.  Not modelled in CoreModel: the
+   pool of own block signatures (payload [sigs] is an input), fast-forward / reset / bootstrap. *)
 
 Example C05_example :
   let p := prun [PSubmit [1; 2]; PSelfEvent true false [] []; PSubmit [3]; PSelfEvent true true [4] [];
@@ -164,5 +276,34 @@ Proof.
       assert (ID : ids_determine c05_all) by (apply ids_determine_distinct; vm_compute; reflexivity).
       apply ID; assumption. }
   split; [apply distinctb_NoDup; vm_compute; reflexivity|].
+  vm_compute. repeat split; reflexivity.
+Qed.
+
+(* non-vacuity of the combined model: the history of C05_example_commit seen from node 0 as a
+   core: it accepts transaction k and makes self-event k for even k, and syncs event k of node 1 for
+   odd k; then accepts 12 and 13 which stay pending.  The premises hold (checked), three blocks are
+   delivered, the own committed transactions are 0, 2, 4. *)
+Definition c05c_ops : list cop :=
+  flat_map (fun k => if Z.even k
+                     then [CAddTxs [k]; CAddSelfEvent k (if k =? 0 then -1 else k - 1) k (Z.even (k / 3)) (100 - k) []]
+                     else [CSync [c05_ev k]]) [0; 1; 2; 3; 4; 5; 6; 7; 8; 9; 10; 11]
+  ++ [CSigPool; CAddTxs [12; 13]].
+Definition c05c_init : core := core_init 0 c05_g [7; 8; 9; 10; 11; 12].
+Definition c05c : core := node 0 c05_g [7; 8; 9; 10; 11; 12] c05c_ops.
+
+Example C05_example_core :
+  run_evs c05c_init c05c_ops = c05_all /\
+  ids_determine c05_all /\ run_ok c05_all c05c_init c05c_ops /\
+  c_hg c05c = c05_st /\
+  created_ids c05c = [0; 2; 4; 6; 8; 10] /\ c_txs c05c = [12; 13] /\ c_head c05c = 10 /\ c_seq c05c = 5 /\
+  c_submitted c05c = [0; 2; 4; 6; 8; 10; 12; 13] /\
+  own_committed_events c05c = [0; 2; 4] /\ own_committed_txs c05c = [0; 2; 4] /\
+  committed_txs (c_hg c05c) = [0; 1; 2; 3; 4; 5].
+Proof.
+  assert (E : run_evs c05c_init c05c_ops = c05_all) by (vm_compute; reflexivity).
+  split; [exact E|]. split; [apply ids_determine_distinct; vm_compute; reflexivity|].
+  split.
+  { apply run_ok_of_checks; [rewrite E; apply incl_refl| |vm_compute; reflexivity].
+    intros e He. repeat (destruct He as [<-|He]; [vm_compute; discriminate|]). destruct He. }
   vm_compute. repeat split; reflexivity.
 Qed.
